@@ -1,6 +1,7 @@
 package props
 
 import (
+	"bytes"
 	"encoding/hex"
 	"fmt"
 	"math/big"
@@ -87,6 +88,15 @@ func c16check(c c16case) (v *Viol, nt bool) {
 		if !eq(back, bz) {
 			return viol("C16", 0, "decode then encode returns the same bytes", hexs(bz), hexs(back)), false
 		}
+		// the same through a decoder value that already decoded another message
+		var reused types.Message
+		if _, err := reused.Parse(bytes.Repeat([]byte{0xa5}, 116+41)); err == nil {
+			if rm2, err := reused.Parse(append([]byte{}, bz...)); err != nil {
+				return viol("C16", 0, "decoding into a value that decoded another message before", "value", err), false
+			} else if b2, err := rm2.Bytes(); err != nil || !eq(b2, bz) {
+				return viol("C16", 0, "decode (into a value that decoded another message before) then encode returns the same bytes", hexs(bz), hexs(b2)), false
+			}
+		}
 		nt = rm.Version != 0 && rm.Source != 0 && rm.Dest != 0 && rm.Nonce != 0 && nonzero(rm.Sender) && nonzero(rm.Recip) && nonzero(rm.Caller) && nonzero(rm.Body)
 		return nil, nt
 	case "msg-encode":
@@ -150,6 +160,14 @@ func c16check(c c16case) (v *Viol, nt bool) {
 		}
 		if !eq(back, bz) {
 			return viol("C16", 0, "burn message: decode then encode returns the same bytes", hexs(bz), hexs(back)), false
+		}
+		var reused types.BurnMessage
+		if _, err := reused.Parse(bytes.Repeat([]byte{0xa5}, 132)); err == nil {
+			if rm2, err := reused.Parse(append([]byte{}, bz...)); err != nil {
+				return viol("C16", 0, "decoding into a burn-message value that decoded another one before", "value", err), false
+			} else if b2, err := rm2.Bytes(); err != nil || !eq(b2, bz) {
+				return viol("C16", 0, "burn message: decode (into a value that decoded another one before) then encode returns the same bytes", hexs(bz), hexs(b2)), false
+			}
 		}
 		nt = rm.Version != 0 && nonzero(rm.BurnToken) && nonzero(rm.MintRecip) && rm.Amount.Sign() != 0 && nonzero(rm.MsgSender)
 		return nil, nt
